@@ -281,6 +281,8 @@ pub(crate) fn apply_rules_on_link(
             };
 
             queue = queue.difference(&consumed).cloned().collect();
+            #[cfg(in_toto_verif)]
+            crate::verif::emit(serde_json::json!({"ev": "rule", "item": item_name, "phase": format!("{:?}", verification_data.src_type), "rule": rule, "consumed": consumed, "queue": queue}));
         }
     }
 
